@@ -59,3 +59,30 @@ Proof.
   apply Forall_forall. intros p Hp. apply in_map_iff in Hp as (c & <- & _). apply na_call3.
 Qed.
 Print Assumptions C07_premise_calls3.
+
+(** Non-vacuity: two threads write the same vertex; under the schedule below thread 0 reads, thread 1
+    runs to its commit, thread 0's validation then fails, it starts again and commits. Both transactions
+    are in the history, and the store is the one-at-a-time outcome "thread 1, then thread 0". *)
+From Coq Require Import Floats Uint63.
+From HC Require Import Extract.Run2.
+Definition c07_st : state2 := empty2 2 [].
+Definition c07_wl : list (list (prog unit)) :=
+  [[call2_prog (nd c07_st) [] (WriteVertex 1 (PrimFloat.of_uint63 1, PrimFloat.of_uint63 1))];
+   [call2_prog (nd c07_st) [] (WriteVertex 1 (PrimFloat.of_uint63 2, PrimFloat.of_uint63 2))]].
+Definition c07_sched : list nat := [0; 0; 1; 1; 1; 1; 0; 0; 0; 0; 0]%nat.
+Definition c07_cfg (s : list nat) := run_sched unit (env2 c07_st None) (init unit (mem c07_st) c07_wl) s.
+Example C07_conflict_and_restart :
+  (* after thread 0's first commit attempt: only thread 1 has committed, thread 0 is running a fresh attempt *)
+  length (hist unit (c07_cfg (firstn 8 c07_sched))) = 1%nat /\
+  (match nth_error (ths unit (c07_cfg (firstn 8 c07_sched))) 0 with
+   | Some t => match att unit t with Some a => rs unit a | None => [(XVertex 0, (VB true, 0%nat))] end
+   | None => [(XVertex 0, (VB true, 0%nat))] end) = [] /\
+  (* at the end both have committed and the value is thread 0's *)
+  length (hist unit (c07_cfg c07_sched)) = 2%nat /\
+  map (outs unit) (ths unit (c07_cfg c07_sched)) = [[ROk tt]; [ROk tt]] /\
+  asV (vals (G unit (c07_cfg c07_sched)) (XVertex 1)) = Some (PrimFloat.of_uint63 1, PrimFloat.of_uint63 1).
+Proof.
+  (* each side is a first-order value: conversion is checked by the virtual machine, without normalising the
+     (instance-dependent) types of the goal *)
+  repeat split; lazymatch goal with |- _ = ?v => vm_cast_no_check (@eq_refl _ v) end.
+Qed.
